@@ -277,7 +277,8 @@ match replay_with(&rec, |p| {call}) {{
                   unwind=unwind("named", ["green", "alpha"]))
 
     # ---- (4) as_array / as_uint
-    for key, ck, wrapper in [("rgb_u8", "rgb_u8", None), ("rgba_u8", "rgb_u8", "alpha"), ("rgb_f32", "rgb_f32", None), ("hsva_f32", "hsv_f32", "alpha")]:
+    for key, ck, wrapper, wname in [("rgb_u8", "rgb_u8", None, "WithArrayRgbU8"), ("rgba_u8", "rgb_u8", "alpha", "WithArrayRgbaU8"),
+                                    ("rgb_f32", "rgb_f32", None, "WithArrayRgbF32"), ("hsva_f32", "hsv_f32", "alpha", "WithArrayHsvaF32")]:
         col = COLS[ck]
         ty = wrap_ty(col, wrapper)
         for fmt in ("named", "packed"):
@@ -299,11 +300,11 @@ kani::cover!(true);
 let c: {ty} = {value(col, wrapper)};
 let arr: [{col.comp}; {n}] = palette::cast::into_array(c);
 assert!({same});
-let w = WithArray {{ c }};
+let w = {wname} {{ c }};
 let (rec, ok) = record({FMT[fmt]}, &w);
 assert!(ok.is_ok());
 assert!(shape!(rec; {', '.join(toks)}));
-match replay::<WithArray<{ty}>>(&rec) {{
+match replay::<{wname}>(&rec) {{
     Ok(d) => {{
 {chk}
     }}
